@@ -16,7 +16,7 @@ RULE = ("random cfg-free definitions over the documented language (all object ki
         "`cargo check` per batch with every diagnostic mapped to its definition; distinct = distinct feature vectors "
         "(object kinds, depth, refs, conversions, accesses, address types, stride signs)")
 
-KNOWN_CLASSES = ("D7", "D8", "D9", "D12", "D16")
+KNOWN_CLASSES = ("D7", "D8", "D9", "D12", "D16", "D17")
 
 
 def features(d):
@@ -68,6 +68,11 @@ def predicted_classes(d):
                         cls.add("D12")
                     if fl["base"] != "int" and any(n < 0 for n in nums):
                         cls.add("D16")
+                    if fl["base"] == "int" and fl["end"] is not None:
+                        w = fl["end"] - fl["start"]
+                        cb = max(8, 1 << (w - 1).bit_length()) if w > 1 else 8
+                        if any(n >= (1 << (cb - 1)) or n < -(1 << (cb - 1)) for n in nums):
+                            cls.add("D17")
         if o["kind"] == "register":
             acc = o["access"] or cfg.get("default_register_access") or "RW"
             if reg_unsigned and acc != "WO" and o.get("repeat") and o["repeat"]["stride"] < 0:
@@ -100,6 +105,8 @@ def classify_error(diag):
         return "D12"
     if code == "E0600" or "cannot apply unary operator" in msg or code == "E0080":
         return "D16"
+    if code == "overflowing_literals" and re.search(r"literal out of range for `i\d+`", msg) and " = " in (diag.get("rendered") or ""):
+        return "D17"
     return "other:" + str(code)
 
 
@@ -130,6 +137,28 @@ def declared_vs_emitted(d, facts):
     return bad
 
 
+def add_boundary_literal(rng, d):
+    """An object whose address LITERAL sits exactly on / next to an integer-width boundary (every literal the emitter
+    writes must be representable in the type of its position: internal address type, address type)."""
+    cfg = d["config"]
+    kind = rng.choice(["register", "command", "buffer"])
+    at = cfg.get(kind + "_address_type") or "u8"
+    lo, hi = adef.INT_RANGE[at]
+    cands = [b for b in (127, 128, 255, 256, 32767, 32768, 65535, 65536, 2 ** 31 - 1, 2 ** 31, 2 ** 32 - 1,
+                         -128, -129, -32768, -32769, -2 ** 31) if lo <= b <= hi]
+    if not cands:
+        return
+    exact = [b for b in cands if b in (128, 256, 32768, 65536, 2 ** 31, -128, -32768, -2 ** 31)]
+    a = rng.choice(exact) if exact and rng.random() < 0.8 else rng.choice(cands)
+    if kind == "register":
+        o = adef.mk_register("Rzz", a, 8, [adef.mk_field("val", "uint", 0, 8)])
+    elif kind == "command":
+        o = adef.mk_command("Rzz", a, basic=True)
+    else:
+        o = adef.mk_buffer("Rzz", a)
+    d["objects"].append(o)
+
+
 def run(ctx):
     info = vlib.coq_gate(ctx)
     exe, err = gen_common.build_gen_runner(ctx)
@@ -148,6 +177,8 @@ def run(ctx):
         i += 1
         prof = prof_dirty if rng.random() < 0.25 else prof_clean
         d = gendev.gen_device(rng, prof)
+        if rng.random() < 0.5:
+            add_boundary_literal(rng, d)
         syntax = rng.choice(["dsl", "dsl", "json", "yaml", "toml"])
         if syntax != "dsl":
             # manifests cannot express u128 reset integers
@@ -177,34 +208,46 @@ def run(ctx):
             viol.append((c, "accessors do not match the declared objects", bad[:3]))
         if len(accepted) < want_n:
             accepted.append(c)
-    mods = {c["id"]: res[c["id"]]["pretty"] for c in accepted}
     feats = set()
     for c in accepted:
         feats.add(tuple(sorted(features(defs[c["id"]]).items())))
-    main_rs = "fn main() {}\n"
-    l2.write_crate(ctx, "c19probe", mods, main_rs, features=["defmt"])
-    ok, out = l2.build(ctx, "c19probe", check_only=True, message_format_json=True, timeout=2400)
+    # Two crates: definitions predicted to fall in a known non-compiling class are kept apart, because rustc stops
+    # before its lint passes (overflowing literals ...) once any module has a type error, which would mask new defects
+    # in the clean definitions.
     per_mod = collections.defaultdict(list)
     other_errors = []
-    for line in out.splitlines():
-        if not line.startswith("{"):
+    mods = {}
+    LINT = {"D17"}
+    for crate, group in (("c19clean", [c for c in accepted if not predicted_classes(defs[c["id"]])]),
+                         ("c19lint", [c for c in accepted if predicted_classes(defs[c["id"]]) and predicted_classes(defs[c["id"]]) <= LINT]),
+                         ("c19known", [c for c in accepted if predicted_classes(defs[c["id"]]) - LINT])):
+        gm = {c["id"]: res[c["id"]]["pretty"] for c in group}
+        mods.update(gm)
+        if not gm:
             continue
-        try:
-            m = json.loads(line)
-        except json.JSONDecodeError:
-            continue
-        if m.get("reason") != "compiler-message":
-            continue
-        dg = m["message"]
-        if dg.get("level") != "error":
-            continue
-        spans = [s for s in dg.get("spans", []) if s.get("is_primary")] or dg.get("spans", [])
-        fn = spans[0]["file_name"] if spans else ""
-        mod = os.path.basename(fn)[:-3] if fn.endswith(".rs") else ""
-        if mod in mods:
-            per_mod[mod].append(dg)
-        elif "aborting due to" not in dg.get("message", ""):
-            other_errors.append(dg.get("message", "")[:200])
+        l2.write_crate(ctx, crate, gm, "fn main() {}\n", features=["defmt"])
+        ok, out = l2.build(ctx, crate, check_only=True, message_format_json=True, timeout=2400)
+        hist[crate + "_modules"] = len(gm)
+        for line in out.splitlines():
+            if not line.startswith("{"):
+                continue
+            try:
+                m = json.loads(line)
+            except json.JSONDecodeError:
+                continue
+            if m.get("reason") != "compiler-message":
+                continue
+            dg = m["message"]
+            if dg.get("level") != "error":
+                continue
+            spans = [s for s in dg.get("spans", []) if s.get("is_primary")] or dg.get("spans", [])
+            fn = spans[0]["file_name"] if spans else ""
+            mod = os.path.basename(fn)[:-3] if fn.endswith(".rs") else ""
+            if mod in gm:
+                per_mod[mod].append(dg)
+            elif "aborting due to" not in dg.get("message", "") and "could not compile" not in dg.get("message", ""):
+                other_errors.append(dg.get("message", "")[:200])
+        l2.cleanup(ctx, crate)
     known_seen = collections.Counter()
     for c in accepted:
         cid = c["id"]
@@ -233,7 +276,6 @@ def run(ctx):
         vlib.violation(ctx, {"broken": info["reason"], "theorem": "props/C19.v"}, no_input=True)
     samples = [{"syntax": c["syntax"], "text": c["text"][:700], "compiled": "error" if per_mod.get(c["id"]) else "ok",
                 "classes": sorted(predicted_classes(defs[c["id"]]))} for c in accepted[:3]]
-    l2.cleanup(ctx, "c19probe")
     vlib.write_evidence(ctx, info, {"evaluations": len(cases), "distinct_nontrivial": len(feats), "rule": RULE,
                                     "samples": samples, "input_distribution": dict(hist), "compiled_definitions": len(accepted),
                                     "known_classes_seen": dict(known_seen), "disagreements": len(viol)})
